@@ -1320,7 +1320,7 @@ impl<T: RadixSortable> AdvancedRadixSort<T> {
         }
 
         // Split into chunks and sort in parallel
-        let chunk_size = (data.len() + num_threads - 1) / num_threads;
+        let chunk_size = data.len().div_ceil(num_threads);
 
         data.par_chunks_mut(chunk_size).for_each(|chunk| {
             if let Ok(mut temp_sorter) = AdvancedRadixSort::with_config(AdvancedRadixSortConfig {
